@@ -608,7 +608,16 @@ func Run(sc *Scenario) *Result {
 		}
 	}
 	close(obsStop)
-	obsWG.Wait()
+	{
+		// an observer may be blocked inside the runner (e.g. behind a shutdown that never returns): do not wait forever
+		obsDone := make(chan struct{})
+		go func() { obsWG.Wait(); close(obsDone) }()
+		select {
+		case <-obsDone:
+		case <-time.After(time.Duration(maxKillTO(sc))*2*time.Second + 3*time.Second):
+			res.Dirty = true
+		}
+	}
 	active := func() bool { return tracer.Count("Unreg") < tracer.Count("Spawn") || fakecmd.Alive() > 0 }
 	waitOps := func(limit time.Duration) bool {
 		opsDone := make(chan struct{})
